@@ -15,7 +15,7 @@ PROPERTY = "C02"
 LEVEL = "exploration"
 RULE = (
     "every input accepted by strict decoding among: generated encodings of all non-union types (incl. signed, 64-bit, "
-    "named-range and enum-backed leaves), all command codes x directions x configurations, the captured corpus; plus "
+    "named-range and enum-backed leaves), all command codes x directions x configurations, the captured corpus, and whichever near misses of these (bytes appended, single bytes changed) strict decoding accepts; plus "
     "value-corrupted variants decoded in warn mode whenever every warning is a value warning; per event the re-encoded "
     "chunk is compared with the input slice at the running offset and with the pinned width; the encoder is fed with a list, a tuple, a one-shot iterator, the live decoder and a generator of the primitive events only; warn-mode variants include two different out-of-range values in two fields of the same type, their collected event lists are re-encoded as a list after the decode and once more after up to 40 further decodes in the same process; thorough: the repository's own test suite runs with a monitor around every decode it makes (look-ahead, round trip of clean completions, held events); distinct = distinct (type/code, "
     "configuration or fault, event count) cases"
@@ -182,6 +182,21 @@ def run_shard(shard, rec):
                 if bref.outcome.kind == "ok":
                     for fc in cases.value_faults(base, bref, rng, limit=1 if shard.get("tier") != "thorough" else 4):
                         check_warn(fc, rec)
+                    # "every input that strict decoding accepts" is more than what a generator calls well-formed: near
+                    # misses of well-formed inputs (zeros / ones / a copy of the head appended, single bytes changed) are
+                    # decoded too, and whichever of them strict mode accepts must re-encode to itself
+                    if rec.counters.get("bases_with_near_misses", 0) < 4000 and rec.evaluations % 3 == 0:
+                        rec.count("bases_with_near_misses")
+                        near = [base.d + b"\x00" * k for k in (1, 2, 4, 8)] + [base.d + b"\xff\xff\xff\xff", base.d + base.d[:4], base.d[:-1]]
+                        for _ in range(3):
+                            b = bytearray(base.d)
+                            b[rng.randrange(len(b))] ^= rng.choice((0x01, 0x80, 0xFF, 0x10))
+                            near.append(bytes(b))
+                        for nb in near:
+                            rec.count("near_misses_decoded")
+                            nc = cases.Case(base.t, nb, base.cc, base.enc, origin=base.origin + " near-miss", sig=("near", base.sig, len(nb), nb[-4:].hex()))
+                            if check_accepted(nc, rec):
+                                rec.count("near_misses_accepted")
                     for fc in cases.twin_value_faults(base, bref, rng, limit=1 if shard.get("tier") != "thorough" else 3):
                         rec.count("twin_value_faults")
                         check_warn(fc, rec)
@@ -199,7 +214,7 @@ def finish(m, tier):
     inc = []
     if tier == "thorough" and not m["counters"].get("repo_tests_completed_clean"):
         inc.append("the repository's tests were not observed under the monitors")
-    for k in ("encoder_feeds", "accepted", "warn_value_only", "negative_values", "64bit_fields", "twin_value_faults", "warn_several_value_warnings", "retained_lists_rechecked"):
+    for k in ("near_misses_accepted", "encoder_feeds", "accepted", "warn_value_only", "negative_values", "64bit_fields", "twin_value_faults", "warn_several_value_warnings", "retained_lists_rechecked"):
         if not m["counters"].get(k):
             inc.append(f"no case of {k}")
     if m["counters"].get("contract_layer_active") and not m["counters"].get("contract_evals_int_to_bytes"):
